@@ -200,6 +200,10 @@ def run(chk):
     items += [{"builder": "harness.corpus.realise_multirule", "must_compile": True, "mr": {"cell": cl, "variant": 0, "onepoint": n},
                "seed": chk.seed * 7 + 60 + 2 * k + n, "scalar": "float64", "ninputs": 1, "geom": "affine", "label": f"multirule/{cl}/onepoint{n}"}
               for k, cl in enumerate(("interval", "triangle", "quadrilateral", "tetrahedron")) for n in (2, 3) if not quick or (k + n) % 2]
+    items += [{"builder": "harness.corpus.realise_multirule", "must_compile": True, "mr": {"cell": cl, "variant": v, "samepoints": True},
+               "seed": chk.seed * 7 + 90 + k, "scalar": "float64", "ninputs": 1, "geom": "affine", "label": f"multirule/{cl}/samepoints{v}"}
+              for k, (cl, v) in enumerate([(cl, v) for cl in ("interval", "triangle", "quadrilateral", "tetrahedron")
+                                           for v in ((0, 1) if not quick else ((0,) if cl in ("interval", "quadrilateral") else (1,)))])]
     items += [{"builder": "harness.corpus.realise_multirule", "must_compile": True, "mr": {"cell": cl, "variant": v, "samesize": True}, "seed": chk.seed * 7 + 70 + k,
                "scalar": "float64", "ninputs": 1, "geom": "affine", "label": f"multirule/{cl}/samesize{v}"}
               for k, (cl, v) in enumerate([(cl, v) for cl in ("interval", "triangle", "quadrilateral", "tetrahedron", "hexahedron")
